@@ -223,39 +223,58 @@ def same_path(ctx, work, k):
 def header_mismatch(ctx, work, k):
     from bio2zarr import vcf2zarr
     rng = ctx.rng
-    spec = base_spec(rng)
+    while True:
+        spec = base_spec(rng)
+        if len(spec["samples"]) >= 2:
+            break
     recs = spec["records"]
     half = len(recs) // 2
-    other = copy.deepcopy(spec)
-    kind = rng.choice(["samples", "info", "contigs", "filters"])
-    if kind == "samples":
-        other["samples"] = [s + "x" for s in other["samples"]] or ["extra"]
-        if other["samples"] == ["extra"]:
-            other["formats"] = [{"id": "GT", "number": "1", "type": "String"}]
+    kinds = ["samples renamed", "samples reordered", "samples one renamed", "samples extra", "info extra", "info type",
+             "contigs extra", "contigs reordered", "filters extra"]
+    for kind in (kinds if ctx.thorough or k == 0 else rng.sample(kinds, 3)):
+        other = copy.deepcopy(spec)
+        if kind == "samples renamed":
+            other["samples"] = [s + "x" for s in other["samples"]]
+        elif kind == "samples reordered":          # same names, same number: the call columns would be filed under the wrong sample
+            other["samples"] = other["samples"][::-1]
+        elif kind == "samples one renamed":
+            other["samples"] = other["samples"][:-1] + ["zz"]
+        elif kind == "samples extra":
+            other["samples"] = other["samples"] + ["extra"]
             for r in other["records"]:
-                r["format"] = ["GT"]
-                r["samples"] = [{"GT": "0/1"}]
-    elif kind == "info":
-        other["infos"] = other["infos"] + [{"id": "XTRA", "number": "1", "type": "Integer"}]
-    elif kind == "contigs":
-        other["contigs"] = other["contigs"] + [["zzz", 5]]
-    else:
-        other["filters"] = other["filters"] + [["q99", "x"]]
-    p1 = vcfgen.materialise(spec, pathlib.Path(work) / f"hm{k}a", "vcf.gz+tbi", records=recs[:half])
-    p2 = vcfgen.materialise(other, pathlib.Path(work) / f"hm{k}b", "vcf.gz+tbi", records=other["records"][half:])
-    out = pathlib.Path(work) / f"hm{k}.zarr"
-    inp = {"vcf_spec": spec, "perturbation": kind}
-    ctx.case(("header", k, kind), True)
-    ctx.count(f"header_{kind}")
-    try:
-        vcf2zarr.convert([p1, p2], out, worker_processes=0)
-        ctx.violate(f"files with incompatible headers ({kind} differ) were accepted", inp, "ValueError", "accepted")
-    except ValueError:
-        pass
-    except Exception as e:  # noqa: BLE001
-        ctx.violate(f"incompatible headers ({kind}) raised {type(e).__name__}: {str(e)[:100]}", inp, "ValueError", repr(e)[:100])
-    if (out / ".zmetadata").exists():
-        ctx.violate("incompatible headers: a finished store was left behind", inp, "no output", "store")
+                r["samples"] = r["samples"] + [dict(r["samples"][0])]
+        elif kind == "info extra":
+            other["infos"] = other["infos"] + [{"id": "XTRA", "number": "1", "type": "Integer"}]
+        elif kind == "info type":
+            other["infos"] = [dict(f, type="Float") if f["id"] == "END" else f for f in other["infos"]]
+        elif kind == "contigs extra":
+            other["contigs"] = other["contigs"] + [["zzz", 5]]
+        elif kind == "contigs reordered":
+            if len(other["contigs"]) < 2:
+                continue
+            perm = list(range(len(other["contigs"])))[::-1]
+            other["contigs"] = [other["contigs"][i] for i in perm]
+            for r in other["records"]:
+                r["contig"] = perm.index(r["contig"])
+        else:
+            other["filters"] = other["filters"] + [["q99", "x"]]
+        tag = f"hm{k}{kinds.index(kind)}"
+        p1 = vcfgen.materialise(spec, pathlib.Path(work) / f"{tag}a", "vcf.gz+tbi", records=recs[:half])
+        p2 = vcfgen.materialise(other, pathlib.Path(work) / f"{tag}b", "vcf.gz+tbi", records=other["records"][half:])
+        out = pathlib.Path(work) / f"{tag}.zarr"
+        inp = {"vcf_spec": spec, "perturbation": kind}
+        ctx.case(("header", k, kind), True)
+        ctx.count("header_" + kind.replace(" ", "_"))
+        try:
+            vcf2zarr.convert([p1, p2] if rng.random() < 0.5 else [p2, p1], out, worker_processes=0)
+            ctx.violate(f"files with incompatible headers ({kind}) were accepted", inp, "ValueError", "accepted")
+        except ValueError:
+            pass
+        except Exception as e:  # noqa: BLE001
+            ctx.violate(f"incompatible headers ({kind}) raised {type(e).__name__}: {str(e)[:100]}", inp, "ValueError", repr(e)[:100])
+        if (out / ".zmetadata").exists():
+            ctx.violate("incompatible headers: a finished store was left behind", inp, "no output", "store")
+        shutil.rmtree(out, ignore_errors=True)
 
 
 def name_clashes(ctx, work):
